@@ -12,7 +12,18 @@ numbered `0 … nsub-1` without gaps.  The driver evaluates exactly this Boolean
 every correspondence case; the examples below show the hypothesis is satisfiable on a graph with a
 one-way link and two competing components.  Which maximal component wins a weight tie depends
 on scipy's numbering (first maximal label, `keep_label_first_max`); with the labelling fixed the
-output is fully determined.
+output is fully determined.  The correspondence passes scipy's ORIGINAL numbering to the model, so the
+first-maximum choice is compared with the implementation's pick also under ties (a different but still
+heaviest pick satisfies the property and is reported as a broken correspondence, not as a violation).
+
+Correspondence-only clauses.  The model has no notion of a container and no `MSM.fit`, hence two clauses
+of the property statement are NOT theorems here and are established only by the differential /
+predicate check in `harness/props/c11.py` on the real code:
+* "dense and sparse inputs agree and keep their container type" (ndarray, np.matrix, every scipy sparse
+  `*_matrix` / `*_array` class, canonical and non-canonical storage; result type `is` the input type);
+* "a model fitted with trimming reports the same mapping" (`MSM(trim=True).fit(a).mapping_` equals the mapping
+  of `trim_disconnected` on the counts, and satisfies the predicate w.r.t. an independent pair count).
+Likewise "the caller's matrix is unchanged" is checked on the real code only (the model is functional).
 -/
 namespace C11
 open Ens Ens.Trim
